@@ -82,7 +82,7 @@ def run(rep, tier):
     check_binning(rep, "HistogramNew::Process", proc, fo, acc, (S(vname) - S("min_")) / S("step_") + sp.Rational(1, 2),
                   S("nbins_"), "periodic_", True)
     fi = Fold(init_).run()
-    stepv = fi.final_env.get(("field", "step_"))
+    stepv = fi.exit_env().get(("field", "step_"))
     mx, mn, N = S("max_"), S("min_"), S("nbins_")
     if stepv is None or isinstance(stepv, (tuple, sp.Matrix)):
         rep.broken("R13.2", "HistogramNew::Initialize_ does not assign step_")
@@ -201,7 +201,7 @@ def run(rep, tier):
     rep.analysed(ln)
     from vsa.vecfold import VecFold, K, KB, SUMK, havoc_atoms
     vl = VecFold(ln).run()
-    pv = vl.final_env.get(("field", "pdf_"))
+    pv = vl.exit_env().get(("field", "pdf_"))
     if pv is None or not hasattr(pv, "e"):
         rep.broken("R13.3", "legacy Normalize: pdf_ is not updated element-wise")
     elif havoc_atoms(pv.e):
